@@ -615,6 +615,18 @@ def _copy_space(rm, source, parent, new):
     return t
 
 
+def _bound_key(rm, sid, name, key):
+    """the key as the cells binds it (defaulted arguments filled in)"""
+    try:
+        ctx = R.Evaluator(rm).ctx_of(sid)
+        cdef = rm.find_cells(ctx.base, name)[1]
+        ba = cdef.signature().bind(*key)
+        ba.apply_defaults()
+        return tuple(ba.arguments.values())
+    except Exception:
+        return key
+
+
 def apply_ref(rm, op):
     """Apply an accepted operation to the reference model."""
     k = op[0]
@@ -738,10 +750,10 @@ def apply_ref(rm, op):
         else:
             del rm.refs[name]
     elif k == "set_value":
-        sid, name, key, value = tup(a[0]), a[1], tup(a[2]), a[3]
+        sid, name, key, value = tup(a[0]), a[1], _bound_key(rm, tup(a[0]), a[1], tup(a[2])), a[3]
         rm.inputs.setdefault((sid, name), {})[key] = value
     elif k == "clear_at":
-        sid, name, key = tup(a[0]), a[1], tup(a[2])
+        sid, name, key = tup(a[0]), a[1], _bound_key(rm, tup(a[0]), a[1], tup(a[2]))
         d = rm.inputs.get((sid, name))
         if d and key in d:
             del d[key]
